@@ -539,7 +539,9 @@ fn gen_i256(tier: &str, r: &mut Rng, emit: &mut dyn FnMut(Case)) {
         }
         if matches!(op, 2 | 6) && r.chance(1, 2) {
             // products near the representable edge: y ~ MAX / x
-            if !x.is_zero() { y = (tmax(true, 256) / &x) + BigInt::from(r.range(-2, 2)); }
+            // ... and near multiples of it (2^256 is where the unsigned cross terms of checked_mul carry out)
+            let k = BigInt::from(1 + r.below(4) * r.below(2));
+            if !x.is_zero() { y = ((tmax(true, 256) + BigInt::one()) * k / &x) + BigInt::from(r.range(-2, 2)); }
             if !in_range(true, 256, &y) { y = BigInt::one(); }
         }
         let ymag = y.bits();
